@@ -31,9 +31,9 @@ __CPROVER_requires(XML_WF_IN(str))
 __CPROVER_requires(__CPROVER_is_fresh(str->data, str->len + 1))          /* std::string keeps data[size()] readable */
 __CPROVER_requires(XML_WF_OUT(outString))
 __CPROVER_requires(XML_GHOSTS_WF)
-__CPROVER_assigns(outString->len, XML_W6(outString), g_n0, g_o_old, XML_GHOST_ASSIGNS, g_enc_calls, g_enc_src, g_enc_dst, g_enc_keep)
+__CPROVER_assigns(outString->len, XML_W6(outString), g_n0, g_o_old, g_c, g_kind, g_elen, XML_GHOST_ASSIGNS, g_enc_calls, g_enc_src, g_enc_dst, g_enc_keep)
 /* 1: call record */
-__CPROVER_ensures(g_enc_calls == __CPROVER_old(g_enc_calls) + 1 && g_enc_src == str && g_enc_dst == outString && g_enc_keep == keepQuotes)
+__CPROVER_ensures(g_enc_calls == __CPROVER_old(g_enc_calls) + 1 && g_enc_src == XS_ID(str) && g_enc_dst == XS_ID(outString) && g_enc_keep == keepQuotes)
 /* 2: it appends; at most six characters per input character; nothing for the empty string */
 __CPROVER_ensures(g_n0 == __CPROVER_old(outString->len) && g_n0 <= outString->len && outString->len <= g_n0 + 6 * str->len
                   && outString->wpos == __CPROVER_old(outString->wpos))
@@ -44,7 +44,7 @@ __CPROVER_ensures(!(outString->wpos < g_n0) || outString->w[0] == __CPROVER_old(
       end, the last one ends at the new end.  enc(c) = the entity of & < > (and of " ' unless keepQuotes), &#xHH; for
       a control character, the character itself otherwise -- except inside a well-formed hexadecimal character
       reference "&#x<hexdigits>;" of the input (g_i_raw), which is copied unchanged (documented pass-through). */
-__CPROVER_ensures(XML_IN_FACT(str->data, str->len, outString, str->len, keepQuotes, condenseWhiteSpace))
+__CPROVER_ensures(XML_GI_CONST(str->data, str->len, keepQuotes, condenseWhiteSpace) && XML_IN_FACT(str->data, str->len, outString, str->len, keepQuotes, condenseWhiteSpace))
 __CPROVER_ensures(!(0 <= g_gi && g_gi == str->len - 1) || XML_NEXT(str->len, outString) == outString->len)
 /* 5: every written output character comes from an escaping branch (GOOD) or is a copy of a character of such a reference */
 __CPROVER_ensures(XML_OUT_FACT(str->data, str->len, outString, keepQuotes))
@@ -80,11 +80,11 @@ __CPROVER_requires(cfile == 0 || __CPROVER_is_fresh(cfile, sizeof(*cfile)))
 __CPROVER_requires(str == 0 || (XML_WF_OUT(str) && str->len <= 100000000))
 __CPROVER_requires(cfile != 0 || str != 0)
 __CPROVER_requires(XML_GHOSTS_WF && g_f_calls == 0 && g_enc_calls == 0 && 0 <= g_k)
-__CPROVER_assigns(n->len, XML_W6(n), v->len, XML_W6(v), g_n0, g_o_old, XML_GHOST_ASSIGNS, g_enc_calls, g_enc_src, g_enc_dst, g_enc_keep,
+__CPROVER_assigns(n->len, XML_W6(n), v->len, XML_W6(v), g_n0, g_o_old, g_c, g_kind, g_elen, XML_GHOST_ASSIGNS, g_enc_calls, g_enc_src, g_enc_dst, g_enc_keep,
                   g_found, g_find_npos, g_f_calls, g_f_fmt, g_f_a, g_f_b;
                   str: str->len, XML_W6(str))
 /* 1: v is the encoding of the value (last EncodeString call) */
-__CPROVER_ensures(g_enc_calls == 2 && g_enc_src == value && g_enc_dst == v)
+__CPROVER_ensures(g_enc_calls == 2 && g_enc_src == XS_ID(value) && g_enc_dst == XS_ID(v))
 /* 2: String* branch: *str grows by  n = D v D  with D one of the two quote characters */
 __CPROVER_ensures(str == 0 || str->len == __CPROVER_old(str->len) + n->len + 2 + v->len + 1)
 __CPROVER_ensures(str == 0 || str->wpos != ATT_PV - 2 || (str->w[0] == '=' && str->w[1] == ATT_D))
